@@ -69,6 +69,11 @@ pub struct IsoCase {
     /// machinery allocates (pipe ends, saved copies) land on the standard numbers
     #[serde(default)]
     pub closed: u8,
+    /// the subshell is started from inside a trap action (for SIGALRM) while another trapped
+    /// signal (SIGHUP) has been caught but its action has not run yet: the subshell must start with
+    /// that trap reset like any other, and the pending action runs once, in the parent
+    #[serde(default)]
+    pub in_trap: bool,
 }
 
 const PRELUDE: &str = "v1=orig\nv2=orig2\nexport v2\nf1() { echo f1; }\nalias a1='echo a1'\nset -- x y\ntrap 'echo usr1' USR1\ntrap '' USR2\ntrap 'mark XT' EXIT\nexec 3>/tmp/f0\numask 027\n";
@@ -106,6 +111,19 @@ fn script(c: &IsoCase) -> String {
                 pre.push_str(text);
             }
         }
+    }
+    if c.in_trap && !c.interactive {
+        let inner = if c.outer.is_empty() {
+            format!("snap A\n{cmd}\nsnap B\n")
+        } else {
+            let mut outer = String::new();
+            for m in &c.outer {
+                outer.push_str(MUTATORS[*m as usize % MUTATORS.len()]);
+                outer.push('\n');
+            }
+            format!("snap A\n(\n{outer}snap P\n{cmd}\nsnap Q\n)\nsnap B\n")
+        };
+        return format!("{pre}trap 'mark PH' HUP\nbody() {{\nkill -s HUP $$\n{inner}}}\ntrap body ALRM\nkill -s ALRM $$\nmark END\n");
     }
     if c.outer.is_empty() {
         format!("{pre}snap A\n{cmd}\nsnap B\n")
@@ -209,6 +227,14 @@ fn check_iso(c: &IsoCase) -> Outcome {
     // in the main shell only
     if let Some(t) = r.trace.iter().find(|t| t.args.first().is_some_and(|a| a == "XT") && t.pid != r.main_pid) {
         return Outcome::fail(ctx(format!("the parent's EXIT trap action ran in process {} (main shell is {}): traps with command actions are reset to default in a subshell", t.pid, r.main_pid)));
+    }
+    if c.in_trap && !c.interactive {
+        // the action of the signal that was pending while the subshell was started runs exactly
+        // once, in the main shell, after the action that started the subshell
+        let ph: Vec<i32> = r.trace.iter().filter(|t| t.args.first().is_some_and(|a| a == "PH")).map(|t| t.pid).collect();
+        if ph != vec![r.main_pid] {
+            return Outcome::fail(ctx(format!("the action of the signal caught before the subshell started ran in processes {ph:?}; it must run exactly once, in the main shell {}", r.main_pid)));
+        }
     }
     // (1) parent unchanged
     let ignore: &[&str] = match c.kind {
@@ -329,6 +355,7 @@ fn check_iso(c: &IsoCase) -> Outcome {
         .class_if(changed, "child-state-changed")
         .class_if(!c.outer.is_empty(), "nested-in-outer-subshell")
         .class_if(c.interactive, "interactive-shell")
+        .class_if(c.in_trap && !c.interactive, "started-in-trap-action-with-a-signal-pending")
         .class_if(!c.interactive && c.closed & 7 != 0, "standard-descriptor-closed-before")
         .class(match c.ending % 5 { 1 => "subshell-exits", 2 | 3 | 4 => "subshell-killed-by-signal", _ => "subshell-falls-off-end" })
         .class_if(!matches!(c.chooser, Chooser::Fifo), "non-fifo-schedule")
@@ -348,7 +375,7 @@ pub fn run(ctx: &Ctx, st: &mut Stats) {
         let kind = KINDS[(r % nk) as usize];
         let m = (r / nk) as u16;
         let chooser = if sc == 0 { Chooser::Fifo } else { Chooser::Seeded(seed * 7919 + i) };
-        Some(IsoCase { kind, mutators: vec![m], chooser, outer: vec![], ending: 0, interactive: false, closed: 0 })
+        Some(IsoCase { kind, mutators: vec![m], chooser, outer: vec![], ending: 0, interactive: false, closed: 0, in_trap: false })
     };
     ISO.run_exhaustive(ctx, st, nm * nk * nsched, &decode);
     st.exhaustive_drivers.retain(|d| d != "isolation"); // schedules are sampled
@@ -357,7 +384,7 @@ pub fn run(ctx: &Ctx, st: &mut Stats) {
     let decode2 = move |i: u64| -> Option<IsoCase> {
         let kind = KINDS[(i % nk) as usize];
         let m = (i / nk) as u16;
-        Some(IsoCase { kind, mutators: vec![0], chooser: Chooser::Fifo, outer: vec![m], ending: 0, interactive: false, closed: 0 })
+        Some(IsoCase { kind, mutators: vec![0], chooser: Chooser::Fifo, outer: vec![m], ending: 0, interactive: false, closed: 0, in_trap: false })
     };
     ISO.run_exhaustive(ctx, st, nm * nk, &decode2);
     st.exhaustive_drivers.retain(|d| d != "isolation");
@@ -369,7 +396,7 @@ pub fn run(ctx: &Ctx, st: &mut Stats) {
         let r = r / 5;
         let interactive = r % 2 == 1;
         let m = [0u16, 37, 48, 42][(r / 2) as usize];
-        Some(IsoCase { kind, mutators: vec![m], chooser: Chooser::Fifo, outer: vec![], ending, interactive, closed: 0 })
+        Some(IsoCase { kind, mutators: vec![m], chooser: Chooser::Fifo, outer: vec![], ending, interactive, closed: 0, in_trap: false })
     };
     ISO.run_exhaustive(ctx, st, nk * 5 * 2 * 4, &decode3);
     st.exhaustive_drivers.retain(|d| d != "isolation");
@@ -379,9 +406,19 @@ pub fn run(ctx: &Ctx, st: &mut Stats) {
         let r = i / nk;
         let closed = (r % 7) as u8 + 1;
         let outer = if r / 7 == 1 { vec![0u16] } else { vec![] };
-        Some(IsoCase { kind, mutators: vec![0], chooser: Chooser::Fifo, outer, ending: 0, interactive: false, closed })
+        Some(IsoCase { kind, mutators: vec![0], chooser: Chooser::Fifo, outer, ending: 0, interactive: false, closed, in_trap: false })
     };
     ISO.run_exhaustive(ctx, st, nk * 7 * 2, &decode4);
+    st.exhaustive_drivers.retain(|d| d != "isolation");
+    // every kind started from a trap action while another trapped signal is pending x a few mutators x nested or not
+    let decode5 = move |i: u64| -> Option<IsoCase> {
+        let kind = KINDS[(i % nk) as usize];
+        let r = i / nk;
+        let m = [0u16, 42, 44, 46][(r % 4) as usize];
+        let outer = if r / 4 == 1 { vec![0u16] } else { vec![] };
+        Some(IsoCase { kind, mutators: vec![m], chooser: Chooser::Fifo, outer, ending: 0, interactive: false, closed: 0, in_trap: true })
+    };
+    ISO.run_exhaustive(ctx, st, nk * 4 * 2, &decode5);
     st.exhaustive_drivers.retain(|d| d != "isolation");
     // random sequences
     let n = ctx.tier.pick(120_000, 2_000_000);
@@ -394,8 +431,9 @@ pub fn run(ctx: &Ctx, st: &mut Stats) {
             prop_oneof![3 => Just(0u8), 2 => 1u8..5],
             prop::bool::weighted(0.3),
             prop_oneof![3 => Just(0u8), 1 => 1u8..8],
+            prop::bool::weighted(0.2),
         )
-            .prop_map(|(k, mutators, seed, outer, ending, interactive, closed)| IsoCase {
+            .prop_map(|(k, mutators, seed, outer, ending, interactive, closed, in_trap)| IsoCase {
                 kind: KINDS[k],
                 mutators,
                 chooser: seed.map_or(Chooser::Fifo, Chooser::Seeded),
@@ -403,6 +441,7 @@ pub fn run(ctx: &Ctx, st: &mut Stats) {
                 ending,
                 interactive,
                 closed,
+                in_trap,
             })
     });
 }
